@@ -138,6 +138,15 @@ for k, (t1, t2) in EXTRA.items():
     CLAIMED[k]["technique"] += t1
     CLAIMED[k]["text"] += t2
 
+# additions of rounds 3 and 4
+EXTRA2 = {
+ "C11": ("; Cli.tla (cmd/php-parser as a concurrent system: walker, N parser workers, printer goroutine, two channels, WaitGroup; TLC: WgCounts, Conservation, OnceEach, PrintsOwn, Ownership, ExitComplete, NoSendOnClosed, termination under fairness) bound both ways: simulated behaviours forced on the real binary through schedule gates, free-running traced runs linearised by TLC against CliTrace.tla",
+         " Rounds 3-4 add Cli.tla / CliTrace.tla: one action per blocking operation of main.go; every per-file object (source buffer, root node, error slice) is owned by one file from its creation to the file's print. TLC checks the invariants and termination exhaustively for small (files, workers, capacity) and shows that two named deviations (recycled source buffers, per-worker error slice) violate Ownership/PrintsOwn. spec -> impl: simulated behaviours are forced on the real binary (hook gates in cmd/php-parser, tag verif), the recorded actions must be the schedule and every file's outputs those of the library alone. impl -> spec: free-running traced runs (GOMAXPROCS 1-4) record per goroutine its action sequence with [begin, end] log intervals and the addresses of the per-file objects; TLC decides whether some interleaving that respects the recorded real-time order is a behaviour of Cli.tla; corrupted copies of a run (results swapped, live buffer reused, file printed twice, wait returning early) must be rejected (binding self-test, else exit 2)."),
+}
+for k, (t1, t2) in EXTRA2.items():
+    CLAIMED[k]["technique"] += t1
+    CLAIMED[k]["text"] += t2
+
 m = {
  "version": 1,
  "setup_cmd": "./setup.sh",
